@@ -39,6 +39,7 @@ Inductive pobs :=
 | OHistSum (counts : list Z) (z : Z)
 | OValues (rows : list (list Z))
 | OMean0 (cols : list ratio)
+| OIvs (rows : list (Z * Z * Z))            (* chromosome number, start, stop : interval rows, compared exactly *)
 | OList (l : list Z)                       (* row sums / column sums of the values under the windows *)
 | OError.
 
@@ -49,10 +50,21 @@ Record gen := {
   g_runs : list (pipeline * pobs * pobs);           (* pipeline, streamed observation, in-memory observation *)
   g_w : list (list (Z * swin));                     (* chunks of stranded windows (chromosome, ((start, stop), strand)) *)
   g_sruns : list (spipeline * pobs * pobs);         (* values under the stranded windows / their mean(axis=0) *)
-  g_eruns : list (texpr * query * pobs * pobs)      (* arithmetic expression on the pileup, query, streamed, in-memory *)
+  g_eruns : list (texpr * query * pobs * pobs);     (* arithmetic expression on the pileup, query, streamed, in-memory *)
+  g_wruns : list (warg * wquery * pobs * pobs)      (* windows around the interval starts: keyword form, query, streamed, in-memory *)
 }.
 
-Inductive case := CFlat (f : flat) | CRechunk (r : rechunk) | CGen (g : gen).
+(* one data set with a chunk of more than max_block k-mers (k = 1): reads are run-length encoded *)
+Record big := {
+  b_chunks : list (list runs_t);                    (* chunks of reads; a read is a list of (letter, run length) *)
+  b_stream : list Z;                                (* count_kmers(stream.sequence, 1).counts for this chunking *)
+  b_single : list Z;                                (* the same data as ONE chunk *)
+  b_mem : list Z                                    (* count_kmers(table.sequence, 1).counts *)
+}.
+(* keyword forms of streamed operations: streamed and in-memory observation, compared with each other only *)
+Definition kwcase := list (list (list Z) * list (list Z)).
+
+Inductive case := CFlat (f : flat) | CRechunk (r : rechunk) | CGen (g : gen) | CBig (b : big) | CKw (k : kwcase).
 
 (* ---------- helpers ---------- *)
 Fixpoint number_chunks {A} (from : Z) (cs : list (list A)) : list (list Z) :=
@@ -173,6 +185,14 @@ Definition obs_matches (sizes : list Z) (expected : gval) (o : pobs) : bool :=
   | OValues rows, GR x => zll_eqb rows x
   | OMean0 cols, GSN sn =>
       (len cols =? len sn) && all_true (map (fun '(r, (s, n)) => close_to r s n) (combine cols sn))
+  | OIvs rows, GT vs =>
+      nondecreasing (map (fun '(ch, _, _) => ch) rows)
+      && (len vs =? len sizes)
+      && all_true (map (fun '(c, v) =>
+            match v with
+            | GIv l => list_eqb pair_eqb (map (fun '(_, s, e) => (s, e)) (filter (fun '(ch, _, _) => ch =? c) rows)) l
+            | _ => false
+            end) (combine (arange (len vs)) vs))
   | OList l, GL x => zlist_eqb l x
   | OError, GErr => true
   | _, _ => false
@@ -190,7 +210,10 @@ Definition gen_extra_spec_ok (g : gen) : bool :=
         obs_matches (g_sizes g) expected mem && obs_matches (g_sizes g) expected streamed) (g_sruns g))
   && all_true (map (fun '(e, q, streamed, mem) =>
         let expected := spec_expr e q order (g_sizes g) (concat (g_a g)) (concat (g_b g)) in
-        obs_matches (g_sizes g) expected mem && obs_matches (g_sizes g) expected streamed) (g_eruns g)).
+        obs_matches (g_sizes g) expected mem && obs_matches (g_sizes g) expected streamed) (g_eruns g))
+  && all_true (map (fun '(a, q, streamed, mem) =>
+        let expected := spec_windows a q order (g_sizes g) (concat (g_a g)) in
+        obs_matches (g_sizes g) expected mem && obs_matches (g_sizes g) expected streamed) (g_wruns g)).
 Definition gen_extra_model_ok (g : gen) : bool :=
   let order := arange (len (g_sizes g)) in
   all_true (map (fun '(p, streamed, mem) =>
@@ -202,7 +225,12 @@ Definition gen_extra_model_ok (g : gen) : bool :=
         match run_expr e q order (g_sizes g) (g_a g) (g_b g) with
         | Some v => obs_matches (g_sizes g) v streamed
         | None => false
-        end) (g_eruns g)).
+        end) (g_eruns g))
+  && all_true (map (fun '(a, q, streamed, mem) =>
+        match run_windows a q order (g_sizes g) (g_a g) with
+        | Some v => obs_matches (g_sizes g) v streamed
+        | None => false
+        end) (g_wruns g)).
 
 Definition gen_spec_ok (g : gen) : bool :=
   let order := arange (len (g_sizes g)) in
@@ -219,7 +247,22 @@ Definition gen_model_ok (g : gen) : bool :=
         | None => false
         end) (g_runs g)).
 
+Definition big_spec_ok (b : big) : bool :=
+  let want := spec_big_counts 4 (b_chunks b) in
+  negb (len (b_chunks b) =? 0) && zlist_eqb (b_stream b) want && zlist_eqb (b_single b) want && zlist_eqb (b_mem b) want.
+Definition big_model_ok (b : big) : bool :=
+  opt_zl_eqb (stream_big_counts max_block 4 (b_chunks b)) (b_stream b)
+  && opt_zl_eqb (stream_big_counts max_block 4 [concat (b_chunks b)]) (b_single b).
+Definition kw_spec_ok (k : kwcase) : bool := all_true (map (fun '(s, m) => zll_eqb s m) k).
+
 Definition spec_ok (c : case) : bool :=
-  match c with CFlat f => flat_spec_ok f | CRechunk r => rechunk_spec_ok r | CGen g => gen_spec_ok g && gen_extra_spec_ok g end.
+  match c with
+  | CFlat f => flat_spec_ok f | CRechunk r => rechunk_spec_ok r | CGen g => gen_spec_ok g && gen_extra_spec_ok g
+  | CBig b => big_spec_ok b | CKw k => kw_spec_ok k
+  end.
 Definition model_ok (c : case) : bool :=
-  match c with CFlat f => flat_model_ok f | CRechunk r => rechunk_model_ok r | CGen g => gen_model_ok g && gen_extra_model_ok g end.
+  match c with
+  | CFlat f => flat_model_ok f | CRechunk r => rechunk_model_ok r | CGen g => gen_model_ok g && gen_extra_model_ok g
+  | CBig b => big_model_ok b
+  | CKw _ => true          (* keyword forms whose semantics belong to other properties: observation equality only *)
+  end.
